@@ -213,6 +213,7 @@ type Conn struct {
 
 	rdDeadline, wrDeadline time.Time
 	rdWake, wrWake         chan struct{}
+	sentBytes              int64
 }
 
 func wake(ch chan struct{}) {
@@ -489,6 +490,7 @@ func (c *Conn) ServerSend(b []byte) {
 		return
 	}
 	c.s2c = append(c.s2c, b...)
+	c.sentBytes += int64(len(b))
 	c.mu.Unlock()
 	wake(c.rdWake)
 }
@@ -517,6 +519,13 @@ func (c *Conn) ArmWriteFault(f WriteFault) {
 	c.mu.Lock()
 	c.wfault = &f
 	c.mu.Unlock()
+}
+
+// SentBytes is the number of bytes the server side has sent on the connection.
+func (c *Conn) SentBytes() int64 {
+	c.mu.Lock()
+	defer c.mu.Unlock()
+	return c.sentBytes
 }
 
 // ClientClosed reports whether the driver closed the connection.
